@@ -54,3 +54,82 @@ def spec_argument(step, variables, values):
             if "dataTable" in step
             else (typed("PickleArgumentEnvelope", {"docString": spec_docstring(step["docString"], variables, values)})
                   if "docString" in step else None))
+
+
+def spec_pstep(step, ktype, idstr, extra_ids, text, variables, values):
+    # a pickle step points back to its source step (and the example row), carries a definite type, its text and,
+    # when the step has one, its argument
+    return opt_key({"astNodeIds": [step["id"]] + extra_ids, "id": idstr, "type": ktype, "text": text},
+                   "argument", not is_none(spec_argument(step, variables, values)),
+                   opt_val(spec_argument(step, variables, values)))
+
+
+def scenario_steps(background_steps, scenario):
+    # background steps are added only when the scenario has steps of its own
+    return (background_steps + scenario["steps"]) if len(scenario["steps"]) > 0 else seq_empty("Step")
+
+
+def plain_pstep(allsteps, j, c0):
+    # j-th step of a plain scenario's pickle (background steps included): no substitution, no row id
+    return spec_pstep(allsteps[j], eff_type(allsteps, j + 1), itos(c0 + j), seq_empty(Str), allsteps[j]["text"],
+                      seq_empty("parser_types.Cell"), seq_empty("parser_types.Cell"))
+
+
+# ---- scenario outlines: content of the pickles of all example rows (ids left empty; ids are a separate clause) ----
+def outline_pstep(allsteps, nbg, j, header_cells, row):
+    # background steps (j < nbg): no substitution, no row id; own steps: substituted, pointing at the example row
+    return spec_pstep(
+        allsteps[j], eff_type(allsteps, j + 1), "",
+        (seq_empty(Str) + [row["id"]]) if j >= nbg else seq_empty(Str),
+        interp(allsteps[j]["text"], header_cells, row["cells"]) if j >= nbg else allsteps[j]["text"],
+        header_cells if j >= nbg else seq_empty("parser_types.Cell"),
+        row["cells"] if j >= nbg else seq_empty("parser_types.Cell"))
+
+
+def row_pickle(ex, row, scenario, inherited_tags, background_steps, uri, language):
+    return {"astNodeIds": [scenario["id"], row["id"]], "id": "",
+            "tags": pickle_tags(inherited_tags + scenario["tags"] + ex["tags"]),
+            "name": interp(scenario["name"], ex["tableHeader"]["cells"], row["cells"]), "language": language,
+            "steps": seq_mapi(scenario_steps(background_steps, scenario), lambda s, j: outline_pstep(
+                scenario_steps(background_steps, scenario), len(background_steps), j, ex["tableHeader"]["cells"], row)),
+            "uri": uri}
+
+
+def examples_pickles(ex, scenario, inherited_tags, background_steps, uri, language):
+    # one pickle per body row of an examples table that has a header; none otherwise
+    return ([row_pickle(ex, row, scenario, inherited_tags, background_steps, uri, language) for row in ex["tableBody"]]
+            if "tableHeader" in ex else seq_empty("Pickle"))
+
+
+def flat_step(acc, ex, i, scenario, inherited_tags, background_steps, uri, language):
+    return acc + examples_pickles(ex, scenario, inherited_tags, background_steps, uri, language)
+
+
+def outline_flat(n, scenario, inherited_tags, background_steps, uri, language):
+    return fold_prefix(scenario["examples"], n, seq_empty("Pickle"), flat_step, scenario, inherited_tags,
+                       background_steps, uri, language)
+
+
+def same_step(a, b):
+    return (a["astNodeIds"] == b["astNodeIds"] and a["type"] == b["type"] and a["text"] == b["text"]
+            and rec_has(a, "argument") == rec_has(b, "argument")
+            and implies(rec_has(a, "argument"), a["argument"] == b["argument"]))
+
+
+def same_source(p, q):
+    return p["astNodeIds"] == q["astNodeIds"] and p["name"] == q["name"] and p["language"] == q["language"] and p["uri"] == q["uri"]
+
+
+def same_tags(p, q):
+    return p["tags"] == q["tags"]
+
+
+def same_steps(p, q):
+    return len(p["steps"]) == len(q["steps"]) and forall(len(p["steps"]), lambda j: same_step(p["steps"][j], q["steps"][j]))
+
+
+def rectangular(scenario):
+    return forall(len(scenario["examples"]), lambda e: implies(
+        "tableHeader" in scenario["examples"][e],
+        forall(len(scenario["examples"][e]["tableBody"]), lambda r:
+               len(scenario["examples"][e]["tableBody"][r]["cells"]) >= len(scenario["examples"][e]["tableHeader"]["cells"]))))
